@@ -791,6 +791,7 @@ def doomed_or_transient(state):
 
 class Driver:
     def __init__(self, ctx, shape, graph, strategy='default', seed=0, world=None):
+        self.no_bulk = False     # C33: a bulk delete runs no hooks by design, its statement is outside the hook machine
         self.ctx = ctx
         self.shape = shape
         self.g = graph
@@ -1008,7 +1009,7 @@ class Driver:
                     break
                 if not acts:
                     break
-                if ad.touched or probe in ('prime', 'seed'):
+                if ad.touched or probe in ('prime', 'seed') or self.no_bulk:
                     acts = {k: v for k, v in acts.items() if k[0] != 'BulkDelete'}
                     if not acts:
                         break
